@@ -24,6 +24,7 @@
 (* Rejection reasons:                                                      *)
 (*   "bad_magic" "truncated" "bad_hc" "bad_bd" "bad_version" "reserved"    *)
 (*   "dictid" "block_too_big" "bad_block_cs" "bad_block" "bad_cc"          *)
+(* and "empty" when the input ends before any data frame began.            *)
 (***************************************************************************)
 EXTENDS LZ4Block, XXH32
 
@@ -31,7 +32,7 @@ FrameMagic  == <<4, 34, 77, 24>>      \* 0x184D2204 little endian
 LegacyMagic == <<2, 33, 76, 24>>      \* 0x184C2102
 IsSkipMagic(s, i) == s[i] >= 80 /\ s[i] <= 95 /\ s[i + 1] = 42 /\ s[i + 2] = 77 /\ s[i + 3] = 24
 
-Has(s, i, n) == i + n - 1 <= Len(s)          \* n bytes available from index i
+Has(s, i, n) == n <= Len(s) - i + 1          \* n bytes available from index i (no overflow for n near 2^31)
 
 \* 31 low bits of a little-endian word, and its top bit
 Low31(s, i) == s[i] + 256 * s[i + 1] + 65536 * s[i + 2] + 16777216 * (s[i + 3] % 128)
@@ -106,6 +107,10 @@ LegacyBlocks(s, i, hdr, content, blocks) ==
     ELSE IF ~Has(s, i, 4) THEN R("truncated", content, Len(s), hdr, blocks)
     ELSE IF <<s[i], s[i + 1], s[i + 2], s[i + 3]>> = LegacyMagic
     THEN LegacyBlocks(s, i + 4, hdr, content, blocks)
+    ELSE IF ~TopBit(s, i) /\ Low31(s, i) = Len(content)
+    THEN \* Linux-kernel flavour: the stream ends with the total uncompressed size; this implementation
+         \* (documented at LegacyOption) takes a word equal to the bytes decoded so far for that trailer
+         R("ok", content, i + 3, hdr, blocks)
     ELSE
     LET size == Low31(s, i)
     IN  IF TopBit(s, i) \/ size > CompressBound(LegacyBlock)
@@ -122,7 +127,8 @@ NoHdr == [flg |-> 0, bd |-> 0, csize |-> <<>>, legacy |-> FALSE]
 \* ---- one frame, after any number of skippable frames, from index i
 RECURSIVE ParseFrom(_, _, _)
 ParseFrom(s, i, strict) ==
-    IF ~Has(s, i, 4) THEN R("truncated", <<>>, Len(s), NoHdr, <<>>)
+    IF i = Len(s) + 1 THEN R("empty", <<>>, Len(s), NoHdr, <<>>)     \* no data frame: nothing, or only skippable frames
+    ELSE IF ~Has(s, i, 4) THEN R("truncated", <<>>, Len(s), NoHdr, <<>>)
     ELSE IF IsSkipMagic(s, i)
     THEN IF ~Has(s, i + 4, 4) THEN R("truncated", <<>>, Len(s), NoHdr, <<>>)
          ELSE IF TopBit(s, i + 4) \/ ~Has(s, i + 8, Low31(s, i + 4))
